@@ -1533,4 +1533,21 @@ _dispatch_verif_source_invoke2(dispatch_source_t ds, dispatch_invoke_context_t d
 			_dispatch_verif_target_kind(ds, r), cur);
 	return r;
 }
+/* _dispatch_source_timer_data on a scratch timer of the uptime clock */
+DISPATCH_EXPORT unsigned long
+_dispatch_verif_source_timer_data(uint64_t *target, uint64_t *deadline,
+		uint64_t interval, uint64_t prev)
+{
+	struct dispatch_timer_source_refs_s dt;
+	unsigned long data;
+	memset(&dt, 0, sizeof(dt));
+	dt.du_ident = DISPATCH_TIMER_INDEX(DISPATCH_CLOCK_UPTIME, 0);
+	dt.dt_timer.target = *target;
+	dt.dt_timer.deadline = *deadline;
+	dt.dt_timer.interval = interval;
+	data = _dispatch_source_timer_data(&dt, prev);
+	*target = dt.dt_timer.target;
+	*deadline = dt.dt_timer.deadline;
+	return data;
+}
 #endif // DISPATCH_VERIF
